@@ -25,8 +25,22 @@ EXPECT = {
 
 
 def scratch_copy(src: str | None = None) -> str:
+    """A scratch copy of the working tree (every tracked file as it is on disk now, plus untracked sources)."""
     src = src or kernel.REPO
     d = tempfile.mkdtemp(prefix="vsim-scratch-")
+    try:
+        files = subprocess.run(["git", "-C", src, "ls-files", "-co", "--exclude-standard"], capture_output=True, text=True,
+                               check=True).stdout.splitlines()
+    except (subprocess.CalledProcessError, FileNotFoundError):
+        files = []
+    if files:
+        for rel in files:
+            sp = os.path.join(src, rel)
+            if os.path.isfile(sp) and "__pycache__" not in rel:
+                dp = os.path.join(d, rel)
+                os.makedirs(os.path.dirname(dp), exist_ok=True)
+                shutil.copy2(sp, dp)
+        return d
     for name in ("peg_parser", "pegen", "tasks", "tests", "setup.py", "pyproject.toml", "Taskfile.yml"):
         p = os.path.join(src, name)
         if os.path.isdir(p):
